@@ -108,6 +108,12 @@ class Folder:
         self.calls = []                         # (name, args) of opaque calls, in order
         self.methods = dict(methods or {})      # name -> FunctionDef: `self.<name>(...)` is folded through (depth <= 6)
         self.depth = 0
+        self.pick = 'lo'                        # how an AbsIdx is made concrete
+
+    def conc(self, v):
+        if isinstance(v, AbsIdx):
+            return 0 if self.pick == 'lo' else v.n - 1
+        return v
 
     def call_method(self, fn, selfv, args, kw):
         a = fn.args
@@ -160,7 +166,13 @@ class Folder:
         if isinstance(e, ast.Dict):
             return {self.ev(k, env): self.ev(v, env) for k, v in zip(e.keys, e.values)}
         if isinstance(e, ast.BinOp) and type(e.op) in BIN:
-            return BIN[type(e.op)](self.ev(e.left, env), self.ev(e.right, env))
+            a_, b_ = self.conc(self.ev(e.left, env)), self.conc(self.ev(e.right, env))
+            if isinstance(a_, (SymInt, AbsNum)) or isinstance(b_, (SymInt, AbsNum)):
+                return AbsNum()
+            try:
+                return BIN[type(e.op)](a_, b_)
+            except TypeError:
+                raise Unfoldable('operands of %s' % type(e.op).__name__)
         if isinstance(e, ast.UnaryOp):
             v = self.ev(e.operand, env)
             if isinstance(e.op, ast.Not):
@@ -186,6 +198,13 @@ class Folder:
                 right = self.ev(c, env)
                 if isinstance(left, Opaque) or isinstance(right, Opaque):
                     raise Unfoldable('comparison with an opaque value')
+                if isinstance(left, SymInt) and right == 0 and type(op) in (ast.Lt, ast.LtE, ast.Gt, ast.GtE, ast.Eq, ast.NotEq):
+                    if not left.cmp0(CMP[type(op)]):
+                        return False
+                    left = right
+                    continue
+                if isinstance(left, (SymInt, AbsNum, AbsStr)) or isinstance(right, (SymInt, AbsNum, AbsStr)):
+                    raise Unfoldable('comparison of abstract values')
                 if not CMP[type(op)](left, right):
                     return False
                 left = right
@@ -195,12 +214,14 @@ class Folder:
         if isinstance(e, ast.Subscript):
             b = self.ev(e.value, env)
             if isinstance(e.slice, ast.Slice):
-                lo = self.ev(e.slice.lower, env) if e.slice.lower else None
-                hi = self.ev(e.slice.upper, env) if e.slice.upper else None
-                st = self.ev(e.slice.step, env) if e.slice.step else None
+                lo = self.conc(self.ev(e.slice.lower, env)) if e.slice.lower else None
+                hi = self.conc(self.ev(e.slice.upper, env)) if e.slice.upper else None
+                st = self.conc(self.ev(e.slice.step, env)) if e.slice.step else None
+                if any(isinstance(x_, (AbsNum, SymInt)) for x_ in (lo, hi, st)):
+                    raise Unfoldable('slice with an unknown bound')
                 return b[lo:hi:st]
             try:
-                return b[self.ev(e.slice, env)]
+                return b[self.conc(self.ev(e.slice, env))]
             except (KeyError, IndexError) as ex:
                 raise Raised(type(ex).__name__, e)
         if isinstance(e, ast.Attribute):
@@ -254,11 +275,14 @@ class Folder:
             return self.models[name](*args, **kw)
         if isinstance(e.func, ast.Attribute) and isinstance(e.func.value, ast.Name) and e.func.value.id == 'self' and e.func.attr in self.methods and 'self' in env:
             return self.call_method(self.methods[e.func.attr], env['self'], args, kw)
-        if name and name.split('.')[-1] in self.models and '.' in name:
+        if name and name.split('.')[-1] in self.models and '.' in name and name.split('.')[0] not in env:
+            # <module>.<function> for a modelled function (the receiver is not a local value)
             return self.models[name.split('.')[-1]](*args, **kw)
         if isinstance(e.func, ast.Name) and e.func.id in FUNCS and e.func.id not in env:
             if e.func.id == 'isinstance':
                 raise Unfoldable('isinstance')
+            if any(isinstance(x, (AbsNum,)) for x in args) and e.func.id in ('int', 'abs', 'min', 'max'):
+                return AbsNum()
             try:
                 return FUNCS[e.func.id](*args, **kw)
             except (ValueError, TypeError) as ex:
@@ -266,6 +290,10 @@ class Folder:
         if isinstance(e.func, ast.Attribute):
             recv = self.ev(e.func.value, env)
             m = e.func.attr
+            if isinstance(recv, (SymInt, AbsStr)) and hasattr(recv, 'm_' + m):
+                return getattr(recv, 'm_' + m)(*args, **kw)
+            if isinstance(recv, str) and m == 'format' and any(isinstance(x, (SymInt, AbsNum, AbsStr)) for x in list(args) + list(kw.values())):
+                return abstract_format(recv, args, kw)
             if isinstance(recv, str) and m in STR_METHODS:
                 return getattr(recv, m)(*args, **kw)
             if isinstance(recv, dict) and m in ('get', 'keys', 'values', 'items'):
@@ -291,6 +319,13 @@ class Folder:
                 raise Raised('ValueError', t)
             for x, y in zip(t.elts, vs):
                 self.bind(x, y, env)
+        elif isinstance(t, ast.Attribute):
+            b = self.ev(t.value, env)
+            if isinstance(b, dict) and '__attrs__' in b:
+                b[t.attr] = v
+                b['__attrs__'] = tuple(b['__attrs__']) + ((t.attr,) if t.attr not in b['__attrs__'] else ())
+            else:
+                raise Unfoldable('attribute store on %r' % (b,))
         else:
             raise Unfoldable('assignment target %s' % type(t).__name__)
 
@@ -307,7 +342,10 @@ class Folder:
                 for t in s.targets:
                     self.bind(t, v, env)
             elif isinstance(s, ast.AugAssign) and isinstance(s.target, ast.Name) and type(s.op) in BIN:
-                env[s.target.id] = BIN[type(s.op)](env[s.target.id], self.ev(s.value, env))
+                if s.target.id not in env:
+                    raise Unfoldable('free name %s' % s.target.id)
+                a_, b_ = env[s.target.id], self.ev(s.value, env)
+                env[s.target.id] = AbsNum() if isinstance(a_, (SymInt, AbsNum)) or isinstance(b_, (SymInt, AbsNum)) else BIN[type(s.op)](a_, b_)
             elif isinstance(s, ast.If):
                 r = self.run(s.body if self.ev(s.test, env) else s.orelse, env)
                 if r[0] != 'fall':
@@ -346,6 +384,220 @@ class Folder:
             else:
                 raise Unfoldable('statement %s' % type(s).__name__)
         return ('fall', None)
+
+
+# ---- length abstraction: integers known by the bit length of their magnitude and their sign, strings / byte strings known by
+#      their length only.  Enough to fold the *size* of an encoding (BigInteger.write) for every bit length, whatever the spelling.
+class SymInt:
+    def __init__(self, bits, negative=False):
+        self.bits, self.negative = bits, negative and bits > 0
+
+    def __abs__(self):
+        return SymInt(self.bits, False)
+
+    def m_bit_length(self):
+        return self.bits
+
+    def m_to_bytes(self, length, byteorder='big', signed=False):
+        return AbsBytes(length)
+
+    def cmp0(self, op):
+        """comparison with the constant 0"""
+        sign = -1 if self.negative else (0 if self.bits == 0 else 1)
+        return op(sign, 0)
+
+    def __repr__(self):
+        return 'SymInt(%s%d bits)' % ('-' if self.negative else '', self.bits)
+
+
+class AbsNum:
+    """an integer about which nothing is known"""
+    def __repr__(self):
+        return 'AbsNum'
+
+
+class AbsIdx:
+    """a position inside a string of length n (result of find/rfind when the character occurs): 0 <= i < n.  The folder replaces
+    it by the smallest or the largest possible position (Folder.pick); a rule that depends on such a value folds twice and
+    requires the same outcome."""
+    def __init__(self, n):
+        self.n = n
+
+    def __repr__(self):
+        return 'AbsIdx(<%d)' % self.n
+
+
+class AbsStr:
+    kind = 'str'
+    exact = True
+
+    def __init__(self, n, origin=None):
+        self.n, self.origin = n, origin
+
+    def __len__(self):
+        return self.n
+
+    def _mk(self, n):
+        r = type(self)(n)
+        r.exact = self.exact
+        return r
+
+    def __iter__(self):
+        for _ in range(self.n):
+            yield (AbsStr(1) if self.kind == 'str' else AbsNum())
+
+    def __add__(self, o):
+        if isinstance(o, (AbsStr, str, bytes)):
+            return self._mk(self.n + len(o))
+        return NotImplemented
+
+    def __radd__(self, o):
+        if isinstance(o, (str, bytes)):
+            return self._mk(self.n + len(o))
+        return NotImplemented
+
+    def __getitem__(self, k):
+        if isinstance(k, slice):
+            return self._mk(len(range(*k.indices(self.n))))
+        if isinstance(k, int):
+            if not -self.n <= k < self.n:
+                raise IndexError(k)
+            return self._mk(1)
+        raise Unfoldable('index of an abstract string')
+
+    def m_replace(self, a, b, *rest):
+        if len(a) != len(b):
+            raise Unfoldable('length-changing replace')
+        return self._mk(self.n)
+
+    def m_rfind(self, *a):
+        return AbsIdx(self.n) if self.n else -1
+
+    def m_find(self, *a):
+        return AbsIdx(self.n) if self.n else -1
+
+    def m_encode(self, *a):
+        r = AbsBytes(self.n)
+        r.exact = False        # a character can take more than one byte: only a lower bound on the length is known
+        return r
+
+    def m_lstrip(self, chars=None):
+        if self.origin and self.origin[0] == 'bin' and chars in ('0b', 'b0'):
+            return AbsStr(self.origin[1])        # bin(n).lstrip('0b'): the binary digits ('' for 0)
+        raise Unfoldable('lstrip of an abstract string')
+
+    def m_zfill(self, w):
+        return self._mk(max(self.n, w))
+
+    def m_rjust(self, w, *a):
+        return self._mk(max(self.n, w))
+
+    def __repr__(self):
+        return '%s[%d]' % (type(self).__name__, self.n)
+
+
+class AbsBytes(AbsStr):
+    kind = 'bytes'
+
+    def m_hex(self):
+        return AbsStr(2 * self.n)
+
+
+def length_models():
+    """models for the Folder: builtins and library calls on length-abstract values"""
+    import struct as _struct
+
+    def fmt(template, *args):
+        raise Unfoldable('format')
+
+    def m_bin(x):
+        if isinstance(x, SymInt):
+            return AbsStr(max(x.bits, 1) + 2 + (1 if x.negative else 0), origin=('bin', x.bits))
+        return bin(x)
+
+    def m_len(x):
+        return len(x)
+
+    def m_int(x, *a):
+        if isinstance(x, AbsStr):
+            return AbsNum()
+        return int(x, *a)
+
+    def m_pack(f, *vals):
+        if all(isinstance(v, (int, bytes, float)) for v in vals):
+            try:
+                return _struct.pack(f, *vals)
+            except _struct.error as ex:
+                raise Raised('struct.error', None)
+        return AbsBytes(_struct.calcsize(f))
+
+    def m_unhex(x):
+        return AbsBytes(len(x) // 2)
+
+    def m_hexlify(x):
+        return AbsBytes(2 * len(x))
+
+    def m_bytes(x=b'', *a):
+        if isinstance(x, AbsStr):
+            return AbsBytes(len(x))
+        if isinstance(x, int):
+            return AbsBytes(x)
+        return AbsBytes(len(bytes(x)))
+
+    return {'bin': m_bin, 'struct.pack': m_pack, 'pack': m_pack, 'binascii.unhexlify': m_unhex, 'unhexlify': m_unhex,
+            'binascii.hexlify': m_hexlify, 'hexlify': m_hexlify, 'bytes': m_bytes, 'bytearray': m_bytes, 'int': m_int,
+            'bytes.fromhex': m_unhex, 'bytearray.fromhex': m_unhex}
+
+
+def abstract_format(template, args, kwargs):
+    """length of str.format output when every replacement field has a known width: {i:b} of a SymInt, {i:0{j}x} / {i:0Nx} of any
+    integer that fits (the caller's obligation), plain literal text"""
+    import string
+    out = 0
+    auto = 0
+    for lit, field, spec, conv in string.Formatter().parse(template):
+        out += len(lit)
+        if field is None:
+            continue
+        if field == '':
+            field = str(auto)
+            auto += 1
+        val = args[int(field)] if field.isdigit() else kwargs[field]
+        spec = spec or ''
+        # nested width {j}
+        import re
+        m = re.fullmatch(r'(0?)(\{(\d*)\}|\d*)([bxXd]?)', spec)
+        if not m:
+            raise Unfoldable('format spec %r' % spec)
+        w = m.group(2)
+        if w.startswith('{'):
+            j = m.group(3)
+            if j == '':
+                j = str(auto)
+                auto += 1
+            w = args[int(j)]
+        else:
+            w = int(w) if w else 0
+        kind = m.group(4)
+        if isinstance(val, SymInt):
+            if kind == 'b':
+                n = max(val.bits, 1) + (1 if val.negative else 0)
+            elif kind in ('x', 'X'):
+                n = max((val.bits + 3) // 4, 1) + (1 if val.negative else 0)
+            else:
+                raise Unfoldable('decimal rendering of a symbolic integer')
+            out += max(n, w)
+        elif isinstance(val, AbsNum):
+            if not w:
+                raise Unfoldable('unbounded rendering of an unknown integer')
+            out += w            # assumption recorded by the rule: the masked value fits its field
+        elif isinstance(val, int) and not isinstance(val, bool):
+            out += max(len(format(val, kind or 'd')), w)
+        elif isinstance(val, (str, AbsStr)) and not kind:
+            out += max(len(val), w)
+        else:
+            raise Unfoldable('format of %r' % (val,))
+    return AbsStr(out)
 
 
 def _names_read(node):
